@@ -14,6 +14,7 @@ package regular
 //vsym:assume signatures are unforgeable: the agent can produce a blob that verifies under key K only if it holds K (model of ssh.PublicKey.Verify); crypto/rand yields arbitrary bytes (unpredictability itself is not decided); os file access and ParseAuthorizedKey are modelled; path.Join is executed from source for names without '/' and '.'
 
 import (
+	"strings"
 	"context"
 	"crypto/ed25519"
 	crand "crypto/rand"
@@ -79,6 +80,10 @@ func m01Which(name string) int {
 	g01ForeignAccess = true
 	if name == w01Dir+"/mallory.pub" {
 		return 3 // the directory also holds the other users' keys
+	}
+	// ... among them the user whose name is this login name in lower case
+	if low := strings.ToLower(w01LogName); !vEqString(low, w01LogName) && vEqString(name, w01Dir+"/"+low+".pub") {
+		return 3
 	}
 	return 0
 }
@@ -415,6 +420,9 @@ func n01Setup() string {
 	if w01LogName != "mallory" {
 		write("mallory.pub", f01OtherUser)
 	}
+	if low := strings.ToLower(w01LogName); low != w01LogName && low != "mallory" {
+		write(low+".pub", f01OtherUser)
+	}
 	return dir
 }
 
@@ -426,7 +434,8 @@ func H01_run() {
 	n := vChoose(2, "log-name-len") + 1
 	w01LogName = vNondetString("logname", n)
 	for i := 0; i < n; i++ {
-		vAssume(vAnd(w01LogName[i] >= 'a', w01LogName[i] <= 'z'))
+		c := w01LogName[i]
+		vAssume(vOr(vAnd(c >= 'a', c <= 'z'), vAnd(c >= 'A', c <= 'Z'))) // login names are case-sensitive
 	}
 	w01Pub = vChoose(5, "pub-file")
 	w01Bare = vChoose(5, "bare-file")
